@@ -20,7 +20,7 @@ LEVEL_TEXT = (
     "base-class reseed; start range folds to [20, 2^16); R-sequence scalars: alpha_k = phi^-k for k=1..d, points "
     "(offset + n*alpha) mod 1, phi iterated as (1+phi)^(1/(d+1)) from 2.0 to a fixed point. The digit loop of halton() must be driven by the running quotient (a round count fixed beforehand from a floating-point logarithm is a finding), and the cache of primes must be extended from a stateful iterator created once (iterator protocol or generator object - not a restartable iterable). The digit arithmetic itself "
     "and the prime sieve are numerical/algorithmic clauses that are not decided."
-    ' (R5) the prime cache is extended from a stateful iterator created once (not from a restartable iterable), every attribute the sampling methods write is re-assigned on a seed reset, and the Halton digit loop is driven by the running quotient (not by a digit count fixed beforehand from a floating-point logarithm).'
+    ' Every attribute the sampling methods write (cursor, carried point) is re-assigned on a seed reset.'
 )
 TECHNIQUE = "linear normal forms of cursor arithmetic + canonical loop-header reading + must-pass-through CFG queries + constant folding + iterator-protocol (typestate) rule for the prime stream"
 
